@@ -91,6 +91,10 @@ func (e *c10Env) handler(name string) *lua.LFunction {
 		if r[0].(string) == "raise" {
 			L.RaiseError("c10 handler %s fails", name)
 		}
+		if r[0].(string) == "arg" { // the handler returns one of its arguments (its self)
+			L.Push(L.Get(tokInt(r[1])))
+			return 1
+		}
 		L.Push(e.val(r))
 		return 1
 	})
@@ -327,11 +331,11 @@ func (e *c10Env) runAPI(c *c10Case) map[string]interface{} {
 		switch c.Op {
 		case "GetTable":
 			res = append(res, e.tok(L.GetTable(a[0], a[1])))
-		case "GetField":
+		case "GetField", "GetFieldT": // GetFieldT: against the generic-key Lua form obj[k]
 			res = append(res, e.tok(L.GetField(a[0], c10Name(asTok(c.A[1])))))
 		case "SetTable":
 			L.SetTable(a[0], a[1], a[2])
-		case "SetField":
+		case "SetField", "SetFieldT":
 			L.SetField(a[0], c10Name(asTok(c.A[1])), a[2])
 		case "GetGlobal":
 			res = append(res, e.tok(L.GetGlobal(c10Name(asTok(c.A[0])))))
@@ -433,11 +437,11 @@ func (e *c10Env) runLua(c *c10Case) map[string]interface{} {
 	var args []lua.LValue
 	nret := 1
 	switch c.Op {
-	case "GetTable":
+	case "GetTable", "GetFieldT":
 		src, args = "return function(a,b) return a[b] end", a
 	case "GetField":
 		src, args = "return function(a) return a."+c10Name(asTok(c.A[1]))+" end", a[:1]
-	case "SetTable":
+	case "SetTable", "SetFieldT":
 		src, args, nret = "return function(a,b,c) a[b]=c end", a, 0
 	case "SetField":
 		src, args, nret = "return function(a,c) a."+c10Name(asTok(c.A[1]))+"=c end", []lua.LValue{a[0], a[2]}, 0
@@ -534,7 +538,7 @@ func c10Obj(args []string) int {
 			c.Tmt = []interface{}{}
 		}
 		rec := map[string]interface{}{"id": c.ID, "w": c.W, "op": c.Op, "a": c.A, "gmt": c.Gmt, "tmt": c.Tmt}
-		mutating := c.Op == "SetTable" || c.Op == "SetField" || c.Op == "SetGlobal" || c.Op == "ProtectedSet"
+		mutating := c.Op == "SetTable" || c.Op == "SetField" || c.Op == "SetGlobal" || c.Op == "ProtectedSet" || c.Op == "SetFieldT"
 		e.gnames = map[string]bool{}
 		if c.Op == "GetGlobal" || c.Op == "SetGlobal" {
 			e.gnames[c10Name(asTok(c.A[0]))] = true
